@@ -41,6 +41,7 @@ LatticesMC == Chains({3}, {"spin", "fermion"}) \cup InfChains({2}, {"fermion"}, 
               \cup {Lat("Ladder", 2, 1, "open", "open", "finite", <<"spin", "fermion">>, 1),
                     Lat("Square", 2, 2, "open", "periodic", "finite", <<"fermion">>, 1)}
 LatticesOne == {Lat("Chain", 3, 1, "open", "open", "finite", <<"fermion">>, 1)}
+LatticesInf2 == InfChains({2}, {"fermion", "spin"}, 2) \cup InfChains({1}, {"fermion"}, 4)
 LatticesQuick == Chains({2, 3, 4}, {"spin", "fermion", "boson1"}) \cup Chains({2, 3}, {"boson2"})
                  \cup InfChains({1}, {"spin", "fermion"}, 4) \cup InfChains({2}, {"spin", "fermion", "boson1"}, 2)
                  \cup InfChains({3}, {"fermion"}, 1)
